@@ -191,6 +191,15 @@ func (e *Eng) Reopen() {
 	e.Out.Op("reopen", "ok")
 }
 
+// ColdReopen closes the store, empties the process-global memTree / tkCloseCache and reopens the same database:
+// what a process restart does.
+func (e *Eng) ColdReopen() {
+	e.closeStore()
+	mavldb.ReleaseGlobalMem()
+	e.open()
+	e.Out.Op("reopen", "ok")
+}
+
 func storeSet(parent []byte, height int64, kvs []KV) *types.StoreSet {
 	s := &types.StoreSet{StateHash: parent, Height: height}
 	for _, kv := range kvs {
